@@ -197,8 +197,14 @@ func runTlv(c Case, tr *Tracer) {
 			}
 		})
 		tr.emit(Ev{"ev": "Ser", "kind": kd, "set": tlvJSONUnsorted(set), "out": B(out), "len": ln, "panic": pan, "site": kd + ".serialize"})
-		if !pan && len(out) > 0 {
-			parseBoth(kd, out, tr) // ... and what was serialised reads back through every parser
+		want := 0
+		for _, x := range set {
+			want += 4 + len(x.V)%65536
+		}
+		if !pan && len(out) > 0 && len(out) <= want {
+			// ... and what was serialised reads back through every parser (an output that is longer than the
+			// triplets it should hold is judged by the Ser event alone)
+			parseBoth(kd, out, tr)
 		}
 	case "perm":
 		set := parseSet(c["set"])
